@@ -57,10 +57,13 @@ Qed.
 
 Lemma pop_unit_cnt c l u r x : pop_unit c l = Some (u, r) ->
   cnt l x = (cnt r x + (if Nat.eqb u x then 1 else 0))%nat.
-Proof. unfold pop_unit. destruct (from_tail c); [apply pop_tail_cnt|apply pop_head_cnt]. Qed.
+Proof.
+  unfold pop_unit. destruct (kind c); try apply pop_head_cnt.
+  destruct (from_tail c); [apply pop_tail_cnt|apply pop_head_cnt].
+Qed.
 
 Lemma pop_unit_none c l : pop_unit c l = None -> l = [].
-Proof. unfold pop_unit, pop_tail, pop_head. destruct (from_tail c), l; congruence. Qed.
+Proof. unfold pop_unit, pop_tail, pop_head. destruct (kind c), (from_tail c), l; congruence. Qed.
 
 Lemma after_miss_ok c : kind c <> VFifoWait -> pc_ok c (after_miss c) /\ after_miss c <> PDone None.
 Proof. unfold pc_ok, after_miss. destruct (kind c); try congruence; split; auto; discriminate. Qed.
